@@ -351,8 +351,10 @@ public:
               if (!R || !seen.insert(R).second) continue;
               anc.push_back(qname(R));
               if (!R->hasDefinition()) continue;
+              // a handler for a base class matches only through public inheritance
               for (auto &B : R->getDefinition()->bases())
-                if (auto *BR = B.getType()->getAsCXXRecordDecl()) work.push_back(BR);
+                if (B.getAccessSpecifier() == AS_public)
+                  if (auto *BR = B.getType()->getAsCXXRecordDecl()) work.push_back(BR);
             }
           }
           o["thrown_anc"] = std::move(anc);
